@@ -150,3 +150,10 @@ CASES += [
                  "        d = {}\n        trstates = []\n        where = {}\n        for i in range(self.nel):\n            if i > 0:\n                break # transitions not", 1),
         (_MOL16, "            state = d[n]\n", "            state = trstates[n]\n", 1)]},
 ]
+
+CASES += [
+    {"name": "bath counter advanced with nob = nob + 1", "kind": "twin", "edits": [
+        (_MOL16, _D_OLD, "                    d[nob] = j\n                    nob = nob + 1\n", 1)]},
+    {"name": "bath counter written out, state recorded after it advanced", "kind": "mutant", "rule": "C16-N", "edits": [
+        (_MOL16, _D_OLD, "                    nob = nob + 1\n                    d[nob] = j\n", 1)]},
+]
